@@ -215,6 +215,21 @@ def F26(env):
   return _cmp(env, XML['F26'], ['act'], act=[-0.8], step=True)
 
 
+XML['F31'] = ('<mujoco><option><flag equality="disable"/></option><worldbody><body name="a" pos="0 0 1"><joint name="j" type="hinge" axis="0 1 0" '
+              'range="-10 10" limited="true"/><geom size=".1" pos=".3 0 0"/><site name="s" pos=".1 0 0"/></body></worldbody>'
+              '<equality><connect body1="a" anchor=".3 0 0"/></equality><sensor><force site="s"/><torque site="s"/></sensor></mujoco>')
+
+
+def F31(env):
+  """deviates if the force/torque sensors differ from the C engine or mjx.forward raises (with fewer than 3 constraint rows the
+  mis-indexed efc_force slice cannot even be reshaped)."""
+  try:
+    return _cmp(env, XML['F31'], ['sensordata'], qpos=[0.5], qvel=[1.0])
+  except Exception as e:
+    tb = [l.strip() for l in traceback.format_exc().split('\n') if 'mjx/_src' in l]
+    return True, 'mjx.forward raised %s: %s (%s); the C engine returns finite force/torque sensor values' % (type(e).__name__, str(e)[:120], tb[-1] if tb else '')
+
+
 XML['F29'] = ('<mujoco><option gravity="0 0 0"/><worldbody><site name="w" pos="-0.4 -0.3 -0.4"/><body pos="0 0 0.1"><joint type="free"/>'
               '<geom size=".05" mass="1.7"/><body pos=".12 .1 -.23"><joint type="ball"/><geom type="capsule" size=".05 .1" mass="3"/>'
               '<site name="s" pos=".07 .19 -.07"/></body></body></worldbody>'
@@ -431,6 +446,9 @@ PROBES = {
     'F29': ('C43', 'mjx-F29-spatial-tendon-armature-bias', "mjx/_src/smooth.py tendon_dot/tendon_bias: qfrc_bias term armature*J^T*(Jdot v) of a spatial "
             "tendon is wrong; free body + ball child, <spatial armature=.08> to a world site: C engine equals the finite-difference reference "
             "(0.0252,...), MJX gives (0.00278,...)"),
+    'F31': ('C43', 'mjx-F31-rnepost-ignores-equality-disable-flag', "mjx/_src/smooth.py rne_postconstraint: reads efc_force[:3*nconnect] (and the weld "
+            "block) as connect/weld forces although the equality flag is disabled and those rows do not exist; hinge beyond its limit + <connect> + "
+            "<flag equality=disable>: the limit force is applied as a connect force, force/torque sensors differ from the C engine"),
     'F8': ('C44', 'mjx-F8-get-data-of-make-data-phantom-contacts', "mjx/_src/io.py _get_data_into: ncon=(contact.dist<=0).sum() counts the dist=0 placeholder "
            "slots of make_data; get_data(m, make_data(m)).ncon=1 with geom (-1,-1) for plane+free sphere, MjData(m).ncon=0"),
     'F9': ('C44', 'mjx-F9-get-data-static-ne-nf-nl', "mjx/_src/io.py _get_data_into: ne/nf/nl are copied from the static MJX slot counts while nefc and the efc "
